@@ -280,5 +280,44 @@ PLANS["C14"] = dict(
     assumptions=ASSUME_COMMON,
 )
 
+
+PLANS["C19"] = dict(
+    runs=lambda tier: [R("copymove", "asan", 210 if tier == "quick" else 4200)],
+    kinds={"copy_answers_differ", "asan_report"},
+    rule="case = one class instantiation (15: PGMIndex x3, CompressedPGMIndex x3 incl. eps_rec 0 and 256, BucketingPGMIndex x2, "
+         "EliasFanoPGMIndex x2, MultidimensionalPGMIndex x2, DynamicPGMIndex x3 with arithmetic / std::string / pointer values) "
+         "x one generated dataset or history x one of 7 operations {copy ctor, copy assignment over an empty / a populated object, "
+         "move ctor, move assignment over empty / populated, copy of a copy} (skipped and counted where the class does not provide "
+         "it) x one of 3 aftermaths {destroy the source and recycle its memory, modify the source, keep it}; oracle: every answer "
+         "of the derived object (search / contains + box walks / find + lower_bound + iteration + range + size) equals the "
+         "source's recorded answers, and AddressSanitizer reports nothing; non-trivial = source destroyed or modified before the "
+         "copy is queried",
+    assumptions=ASSUME_COMMON + ["use-after-free is observed by AddressSanitizer (quarantine) or through changed answers after the freed blocks were recycled"],
+    technique="runtime monitoring: AddressSanitizer + answer digests over enumerated copy/move/destroy orders",
+)
+
+
+PLANS["C20"] = dict(
+    runs=lambda tier: [R("reject", "asan", 123 if tier == "quick" else 984)],
+    level="fault_enumeration",
+    kinds={"reserved_key_not_rejected", "unsorted_bulk_load_not_rejected", "bad_base_not_rejected", "reserved_value_in_bulk_load_not_rejected",
+           "reserved_value_insert_not_rejected", "rejected_insert_changed_container", "range_lo_gt_hi_not_rejected", "wide_coordinate_not_rejected",
+           "non_increasing_point_not_rejected", "negative_epsilon_not_rejected", "c_create_accepted_reserved_value", "asan_report"},
+    rule="enumeration of single precondition violations: the reserved key (max / +inf, 1..3 copies) after valid data of every length "
+         "0..40 for PGMIndex (5 key types incl. float/double), Compressed, Bucketing, Elias-Fano, Mapped (range and raw-file "
+         "constructors) and both constructors of each; one descent at every position of bulk-load ranges of length 2..40; every "
+         "base 3..255 that is not a power of two (empty and bulk constructors); the reserved mapped value at every indexed position "
+         "of bulk loads of length 1..40 and at every step of 60-operation histories (then walk + every level compared with the "
+         "pre-call snapshot); range(lo,hi) with lo > hi; a too-wide coordinate at every point position and axis (D 2..4); a "
+         "non-increasing x at every position inside a segment (eps 0,1,4,64) and negative epsilon; each must raise exactly the "
+         "documented exception category. A case = one sub-family x one length; every case is non-trivial (one precondition broken); "
+         "exhaustive over positions for the stated lengths, not over data values",
+    level_text="fault enumeration: each documented precondition is violated once, at every position where it can be violated for the "
+               "stated lengths, against the real constructors / calls compiled from the working tree under AddressSanitizer; the "
+               "observed exception category and the container state after the rejected call are the oracle.",
+    assumptions=ASSUME_COMMON,
+    technique="runtime monitoring: enumerated invalid inputs, exception-category oracle and state snapshot comparison, under AddressSanitizer",
+)
+
 # properties not claimed (filled while the framework is being built; empty once every engine exists)
 NOT_APPLICABLE = {}
